@@ -3,6 +3,7 @@ Child process of the C09 crash enumeration: opens a KmipEngine on the given data
 runs ONE request, and kills itself (os._exit, no cleanup, no atexit) at a chosen point:
   --kill-at K    : immediately before the K-th SQL statement of the operation (1-based),
   --kill-at cB   : immediately before the DBAPI COMMIT, --kill-at cA : immediately after it,
+  --kill-at cB:n / cA:n : the same around the n-th COMMIT of the request (a batch commits once per item),
   --kill-at none : run to completion.
 Prints one JSON line per event on stdout (flushed): {"ev":"stmt","n":i,"sql":verb table} /
 {"ev":"commit-begin"} / {"ev":"commit-done"} / {"ev":"ack", "out": response}.
@@ -40,7 +41,7 @@ def main():
     E._item = -1
     E.internal_errors = []
     E._open()
-    state = {"n": 0, "armed": False}
+    state = {"n": 0, "armed": False, "commits": 0}
 
     def emit(o):
         sys.stdout.write(json.dumps(o) + "\n")
@@ -61,20 +62,21 @@ def main():
                 break
         if a.kill_at == str(state["n"]):
             os._exit(99)
-        emit({"ev": "stmt", "n": state["n"], "sql": "%s %s" % (verb, table)})
+        emit({"ev": "stmt", "n": state["n"], "sql": "%s %s" % (verb, table), "item": E._item})
     event.listen(E.engine._data_store, "before_cursor_execute", before)
     dialect = E.engine._data_store.dialect
     orig_commit = dialect.do_commit
 
     def do_commit(dbapi_connection):
         if state["armed"]:
-            if a.kill_at == "cB":
+            state["commits"] += 1
+            if a.kill_at == "cB" or a.kill_at == "cB:%d" % state["commits"]:
                 os._exit(99)
-            emit({"ev": "commit-begin"})
+            emit({"ev": "commit-begin", "item": E._item})
         orig_commit(dbapi_connection)
         if state["armed"]:
-            emit({"ev": "commit-done"})
-            if a.kill_at == "cA":
+            emit({"ev": "commit-done", "item": E._item})
+            if a.kill_at == "cA" or a.kill_at == "cA:%d" % state["commits"]:
                 os._exit(99)
     dialect.do_commit = do_commit
     state["armed"] = True
